@@ -16,7 +16,7 @@ sys.path.insert(0, VERIF)
 from mc import build, core, findings  # noqa: E402
 
 
-def write_evidence(ctx, mod, nviol_new, nknown):
+def write_evidence(ctx, mod, nviol_new, nknown, stage=None):
     parts = ctx.parts
     cov = {}
     states = sum(p.stats.get("states", 0) for p in parts.values())
@@ -66,6 +66,23 @@ def write_evidence(ctx, mod, nviol_new, nknown):
     }
     d = os.path.join(VERIF, "evidence")
     os.makedirs(d, exist_ok=True)
+    side = os.path.join(d, ".%s.asan.json" % ctx.pid)
+    if stage == "asan":
+        # side file, embedded by the main thorough run that follows
+        with open(side, "w") as f:
+            json.dump({"tier_bounds": "quick", "sanitizer": "AddressSanitizer build of the five extensions",
+                       "states": states, "transitions": trans, "violations": nviol_new,
+                       "wall_s": ev["wall_s"], "tree": build.repo_root(), "time": time.time()}, f)
+        return
+    if ctx.tier == "thorough" and os.path.exists(side):
+        try:
+            with open(side) as f:
+                sd = json.load(f)
+            if time.time() - sd.get("time", 0) < 6 * 3600 and sd.get("tree") == build.repo_root():
+                sd.pop("time", None)
+                cov["asan_stage"] = sd
+        except Exception:
+            pass
     tmp = os.path.join(d, ".%s.json.tmp" % ctx.pid)
     with open(tmp, "w") as f:
         json.dump(ev, f, indent=1, sort_keys=True)
@@ -78,6 +95,7 @@ def main():
     ap.add_argument("pid")
     ap.add_argument("--tier", default=os.environ.get("VERIF_TIER", "quick"))
     ap.add_argument("--replay", default=None)
+    ap.add_argument("--stage", default=None, help="'asan': sanitizer stage of the thorough tier (side evidence file)")
     a = ap.parse_args()
     pid = a.pid.upper()
     tier = a.tier if a.tier in ("quick", "thorough") else "quick"
@@ -166,7 +184,7 @@ def main():
         uncls = total_viol - len(allv)
         if uncls > 0 and nnew == 0 and not known:
             nnew = uncls
-        write_evidence(ctx, mod, nnew if nnew else 0, len(known))
+        write_evidence(ctx, mod, nnew if nnew else 0, len(known), stage=a.stage)
         if paths:
             shown = 0
             for v, path in paths:
@@ -182,8 +200,8 @@ def main():
             return 2
         st = sum(p.stats.get("states", 0) for p in ctx.parts.values())
         tr = sum(p.stats.get("transitions", 0) for p in ctx.parts.values())
-        print("%s OK tier=%s seed=%d states=%d transitions=%d parts=%d wall=%.1fs" % (
-            pid, tier, seed, st, tr, len(ctx.parts), time.time() - ctx.t0))
+        print("%s OK tier=%s%s seed=%d states=%d transitions=%d parts=%d wall=%.1fs" % (
+            pid, tier, " (sanitizer stage)" if a.stage else "", seed, st, tr, len(ctx.parts), time.time() - ctx.t0))
         return 0
     finally:
         ctx.cleanup()
